@@ -249,6 +249,20 @@ class C08(Base):
     def on_start(self, bus):
         self.L = lengths()
 
+    def on_get(self, bus, h):
+        # shadow of the scheduler's contents kept at the mediator boundary (push / trash list / get): the handler returned
+        # must own a candidate that was pushed and not trashed since, and no other such candidate may be earlier
+        t = bus.live.get(id(h))
+        self.acc.count("scheduler_returns_checked")
+        if t is None:
+            self.viol(bus, "trashed-candidate-returned-by-scheduler",
+                      f"the scheduler returned {real_class_name(h)}, whose candidate was trashed (or already returned) before")
+            return
+        m = min(bus.live.values())
+        if t != m:
+            self.viol(bus, "scheduler-returned-later-candidate",
+                      f"the scheduler returned {real_class_name(h)} with candidate time {t} although a candidate at {m} is live")
+
     def before_commit(self, bus, h, T, out_state):
         t = bus.tagger_of.get(id(h))
         tcls = real_class_name(t) if t is not None else "?"
